@@ -233,7 +233,7 @@ CHECKS["C15"] = dict(
           "position-derived offsets are relative; the CFF INDEX offSize is the specification's decision table applied to the largest "
           "offset actually written; a writer does not emit a computing accessor where the reader stored the raw item; the CFF integer "
           "operand ranges of the writers equal the specification; composite glyph reader and writer agree on the instruction flag; the readers of head, hhea, maxp, post, OS/2 and the CFF headers "
-          "follow the specification's item order; the OS/2 size threshold matches the bytes consumed. Equality of values, and data-dependent layouts beyond the compared prefix, are not decided. The CFF / CFF2 header writers announce a constant header size equal to the bytes they write (C15-s); a writer never zips a sequence whose collection was reordered in place with one that was not (C15-z)."),
+          "follow the specification's item order; the OS/2 size threshold matches the bytes consumed. Equality of values, and data-dependent layouts beyond the compared prefix, are not decided. The CFF / CFF2 header writers announce a constant header size equal to the bytes they write (C15-s); a writer never zips a sequence whose collection was reordered in place with one that was not (C15-z); the version the OS/2 writer announces follows from the optional parts it writes (C15-v)."),
     design_ref="DESIGN.md section 6, C15",
 )
 
